@@ -217,6 +217,22 @@ theorem C06_step (n : Net) (o : Op) (hb : Buffered n) (ha : Adm n o) :
   | copy f =>
     have := sync_copy f ha hb
     exact ⟨_, rfl, this.1, fun _ _ => this.2, fun _ => this.2⟩
+  | scRemove ids =>
+    obtain ⟨h1, h2, h3⟩ := scRemove_spec ids n hb
+    exact ⟨_, rfl, h1, fun _ => h2, h3⟩
+
+/-- `Scenario.remove_lanelet(list)` that fails half-way (a later entry is not, or no longer, in the scenario:
+    `KeyError`) — the exception is caught and the network used further: the index is still synchronised, and nothing
+    was added; so the lookups (`C06_find_position`, `C06_find_shape`) answer with the lanelets that are left.  Holds
+    whether or not the call raised (`(scRemoveLoop n ids).2`). -/
+theorem C06_sync_after_failed_remove (n : Net) (hs : Sync n) (ids : List Int) :
+    Sync (scRemoveLoop n ids).1 ∧ ∀ l ∈ (scRemoveLoop n ids).1.lanelets, l ∈ n.lanelets := by
+  obtain ⟨h1, h2, _⟩ := scRemove_spec ids n hs.1
+  exact ⟨⟨h1, h2 hs.2⟩, scRemove_lanelets ids n hs.1⟩
+
+example : (scRemoveLoop (fromList id [⟨1, 1, [], []⟩, ⟨2, 2, [], []⟩, ⟨3, 3, [], []⟩]) [1, 1, 3]).2 = some .key ∧
+    (scRemoveLoop (fromList id [⟨1, 1, [], []⟩, ⟨2, 2, [], []⟩, ⟨3, 3, [], []⟩]) [1, 1, 3]).1.lanelets.map (·.id) = [2, 3] := by
+  decide
 
 /-- `_buffered_polygons` mirrors the lanelets after ANY admissible operation sequence (whatever the rtree flags),
     and no operation raises. -/
